@@ -91,17 +91,17 @@ Section ContextProofs.
 
   (* interpret reads the resolver only through imported_modules, and the
      CodeSource only labels the source file *)
-  Lemma interpret_eqv_cs :
-    forall k fuel c c' code cs cs',
-      ctx_eqv c c' ->
-      snd (interpret k fuel c code cs) = snd (interpret k fuel c' code cs')
-      /\ ctx_eqv (fst (interpret k fuel c code cs)) (fst (interpret k fuel c' code cs')).
+  Lemma interpret_eqv_gen :
+    forall k fuel c c' code code' cs cs',
+      ctx_eqv c c' -> parse code = parse code' ->
+      snd (interpret k fuel c code cs) = snd (interpret k fuel c' code' cs')
+      /\ ctx_eqv (fst (interpret k fuel c code cs)) (fst (interpret k fuel c' code' cs')).
   Proof.
-    intros k fuel c c' code cs cs' (Ha & Hb & Hc & Hi).
+    intros k fuel c c' code code' cs cs' (Ha & Hb & Hc & Hi) Hp.
     unfold Context.interpret.
-    pose proof (resolve_eqv_cs M M_eqb Code S importer parse fuel (cR c) (cR c') code cs cs' Hi) as [Ei Es].
+    pose proof (resolve_eqv_gen M M_eqb Code S importer parse fuel (cR c) (cR c') code code' cs cs' Hi Hp) as [Ei Es].
     destruct (resolve M M_eqb Code S importer parse fuel (cR c) code cs) as [r1 res].
-    destruct (resolve M M_eqb Code S importer parse fuel (cR c') code cs') as [r1' res'].
+    destruct (resolve M M_eqb Code S importer parse fuel (cR c') code' cs') as [r1' res'].
     cbn [fst snd] in Ei, Es. subst res'. rewrite <- Ha, <- Hb, <- Hc, <- Hi.
     assert (Hset : forall b old, imported (set_imported M Code b old r1)
                                  = imported (set_imported M Code b old r1')).
@@ -115,6 +115,13 @@ Section ContextProofs.
     destruct (run (cC c) a1 b1 t2) as [[c1 [v | ec]] prints]; cbn;
       (split; [reflexivity | repeat split; try apply Hset; exact Ei]).
   Qed.
+
+  Lemma interpret_eqv_cs :
+    forall k fuel c c' code cs cs',
+      ctx_eqv c c' ->
+      snd (interpret k fuel c code cs) = snd (interpret k fuel c' code cs')
+      /\ ctx_eqv (fst (interpret k fuel c code cs)) (fst (interpret k fuel c' code cs')).
+  Proof. intros. now apply interpret_eqv_gen. Qed.
 
   Lemma interpret_eqv :
     forall k fuel c c' code cs,
